@@ -129,33 +129,43 @@ class Server:
                     for k, v in wantc.items():
                         if cj[k] != jsonlib.loads(jsonlib.dumps(v)):
                             raise Violation("C19.container_figures", {"container": c.container_id, "field": k, "sent": cj[k], "true": v}, t)
-        # pipelines
+        # pipelines.  Identity is (pipeline_id, arrival_tick): a recurring job may use the id of a finished pipeline again
+        key = lambda pj_: (pj_["pipeline_id"], pj_.get("arrival_tick"))
         newids = [p["pipeline_id"] for p in body["new_pipelines"]]
-        oth = [p["pipeline_id"] for p in body["other_pipelines"]]
-        if set(newids) & set(oth) or len(set(newids)) != len(newids) or len(set(oth)) != len(oth):
-            raise Violation("C19.new_and_other_overlap", {"both": sorted(set(newids) & set(oth))[:5]}, t)
+        newk = [key(p) for p in body["new_pipelines"]]
+        oth = [key(p) for p in body["other_pipelines"]]
+        if set(newk) & set(oth) or len(set(newk)) != len(newk) or len(set(oth)) != len(oth):
+            raise Violation("C19.new_and_other_overlap", {"both": sorted(set(newk) & set(oth))[:5]}, t)
         arrivals = R.emitted[-1] if R.emitted else []
         if newids != arrivals:
             raise Violation("C19.new_not_arrivals", {"sent": newids[:8], "arrived_this_tick": arrivals[:8]}, t)
-        if set(oth) - self.known:
-            raise Violation("C19.other_unknown", {"unknown": sorted(set(oth) - self.known)[:5]}, t)
-        if self.last_new is not None:
-            byid = {p["pipeline_id"]: p for p in body["other_pipelines"]}
-            for pid in self.last_new:
-                if pid not in byid and pid not in self.complete_reported:
-                    raise Violation("C19.new_pipeline_forgotten", {"pipeline": pid}, t)
-        self.known |= set(newids)
-        self.last_new = [pid for pid in newids]
-        real = {p.pipeline_id: p for p in R.pipes}
+        real = {(p.pipeline_id, p.runtime_status().arrival_tick): p for p in R.pipes}
         for pj in body["new_pipelines"] + body["other_pipelines"]:
             if set(pj) != PIPE_KEYS:
                 raise Violation("C19.leak", {"object": "pipeline", "keys": sorted(pj)}, t)
+            if key(pj) not in real:
+                same_id = [q for q in R.pipes if q.pipeline_id == pj["pipeline_id"]]
+                if same_id:
+                    raise Violation("C19.pipeline_flags", {"pipeline": pj["pipeline_id"], "sent": {"arrival_tick": pj["arrival_tick"]},
+                                                           "true": {"arrival_tick": [q.runtime_status().arrival_tick for q in same_id]}}, t)
+                raise Violation("C19.other_unknown", {"unknown": [pj["pipeline_id"]]}, t)
+        if set(oth) - self.known:
+            raise Violation("C19.other_unknown", {"unknown": sorted(set(oth) - self.known)[:5]}, t)
+        if self.last_new is not None:
+            for k_ in self.last_new:
+                if k_ not in oth and k_ not in self.complete_reported:
+                    raise Violation("C19.new_pipeline_forgotten", {"pipeline": k_[0], "arrived": k_[1]}, t)
+        # every known unfinished pipeline keeps being reported until it was reported complete
+        for k_ in sorted(self.known - set(self.complete_reported), key=str):
+            if k_ not in oth:
+                raise Violation("C19.known_pipeline_dropped", {"pipeline": k_[0], "arrived": k_[1]}, t)
+        self.known |= set(newk)
+        self.last_new = list(newk)
+        for pj in body["new_pipelines"] + body["other_pipelines"]:
             pid = pj["pipeline_id"]
-            if pid in self.complete_reported:
-                raise Violation("C19.reported_after_complete", {"pipeline": pid, "first_reported_complete_at": self.complete_reported[pid]}, t)
-            p = real.get(pid)
-            if p is None:
-                raise Violation("C19.other_unknown", {"unknown": [pid]}, t)
+            if key(pj) in self.complete_reported:
+                raise Violation("C19.reported_after_complete", {"pipeline": pid, "first_reported_complete_at": self.complete_reported[key(pj)]}, t)
+            p = real[key(pj)]
             rs = p.runtime_status()
             ops = list(p.values)
             if [o["id"] for o in pj["operators"]] != [str(o.id) for o in ops]:
@@ -177,7 +187,7 @@ class Server:
                                                        "true": {"is_complete": comp, "has_failures": hf, "priority": p.priority.name,
                                                                 "arrival_tick": rs.arrival_tick}}, t)
             if pj["is_complete"]:
-                self.complete_reported[pid] = t
+                self.complete_reported[key(pj)] = t
                 self.probe("complete_reported")
         # call discipline
         idle = not body["results"] and not body["new_pipelines"]
@@ -283,7 +293,7 @@ class Server:
         last = R.tick
         for p in R.pipes:
             ft = p.runtime_status().finish_tick
-            if ft is not None and ft < last - 1 and p.pipeline_id not in self.complete_reported:
+            if ft is not None and ft < last - 1 and (p.pipeline_id, p.runtime_status().arrival_tick) not in self.complete_reported:
                 if any(c[0] > ft for c in self.calls):
                     raise Violation("C19.completion_never_reported", {"pipeline": p.pipeline_id, "finished_at": ft,
                                                                      "calls_after": [c[0] for c in self.calls if c[0] > ft][:5]}, last)
@@ -412,6 +422,9 @@ def gen_scn(r, tier):
     cfg["rest_poll_interval"] = r.choice([0.5 / tps, 1 / tps, 3 / tps, 10 / tps, 0.1, 1.0, 2.5])
     cfg["rest_scheduler_addr"] = "sim.invalid:1"
     scn["kind"] = "rest"
+    if r.random() < 0.3:
+        scn["reuse_ids"] = True               # recurring jobs: the id of a finished pipeline comes back
+        scn["reuse_seed"] = r.randint(0, 10 ** 6)
     scn["policy"] = r.choice(["gonaive", "random", "random", "random"])
     scn["policy_seed"] = r.randint(0, 10 ** 9)
     scn["latency"] = r.choice(["fast", "slow", "wild"])
